@@ -57,6 +57,12 @@ func axHashLen(x string) {}
 //@ pure
 //@ end
 
+//@ ext crypto/sha512.Sum384 func(data []byte) (res [48]byte)
+//@ ensures Arr48(res) == SHA384(string(data))
+//@ assigns none
+//@ pure
+//@ end
+
 // hash.Hash objects: algorithm (output size in bits) and the bytes written so far are ghost state.
 
 //@ spec ghost
@@ -84,6 +90,24 @@ func HashOf(alg int, x string) string {
 //@ ext crypto/sha512.New func() (h hash.Hash)
 //@ ensures h != nil && fresh(h) && HashAlg(h) == 512 && HashInput(h) == ""
 //@ assigns none
+//@ end
+
+//@ ext crypto/sha256.New func() (h hash.Hash)
+//@ ensures h != nil && fresh(h) && HashAlg(h) == 256 && HashInput(h) == ""
+//@ assigns none
+//@ end
+
+//@ ext (hash.Hash).Reset func(h hash.Hash)
+//@ requires h != nil
+//@ ensures HashInput(h) == ""
+//@ assigns ghost(HashInput(h))
+//@ end
+
+//@ ext (hash.Hash).Size func(h hash.Hash) (n int)
+//@ requires h != nil
+//@ ensures n == len(HashOf(HashAlg(h), ""))
+//@ assigns none
+//@ pure
 //@ end
 
 //@ ext (io.Writer).Write func(w io.Writer, p []byte) (n int, err error)
